@@ -27,16 +27,18 @@ func (d *PathDecoder) bodySchemaCandidates(ctx context.Context, body *hclsyntax.
 		if schema.Extensions.Count {
 			// check if count attribute is already declared, so we don't
 			// suggest a duplicate
-			if _, ok := body.Attributes["count"]; !ok {
+			if _, ok := body.Attributes["count"]; !ok && strings.HasPrefix("count", string(prefix)) {
 				candidates.List = append(candidates.List, attributeSchemaToCandidate(ctx, "count", schemahelper.CountAttributeSchema(), editRng))
+				count++
 			}
 		}
 
 		if schema.Extensions.ForEach {
 			// check if for_each attribute is already declared, so we don't
 			// suggest a duplicate
-			if _, present := body.Attributes["for_each"]; !present {
+			if _, present := body.Attributes["for_each"]; !present && strings.HasPrefix("for_each", string(prefix)) {
 				candidates.List = append(candidates.List, attributeSchemaToCandidate(ctx, "for_each", schemahelper.ForEachAttributeSchema(), editRng))
+				count++
 			}
 		}
 	}
